@@ -129,6 +129,20 @@ def _strlen(w, p):
         if b == 0: return n
         n += 1
 
+def install_strconv(w, Z):
+    """libc string -> integer conversions applied to 'the integer Z the string denotes' (Z: python int or z3 Int), per the C standard:
+       strtoull/strtoul: out-of-range saturates to ULONG_MAX, a leading minus negates in the unsigned type; strtoll/strtol/atol saturate to LONG_MIN/MAX"""
+    from . import bv2int
+    M = 1 << 64
+    def u(it, a):
+        if is_c(Z): return (M - 1) if (Z >= M or Z <= -M) else Z % M
+        return bv2int.BVOfInt(z3.If(z3.Or(Z >= M, Z <= -M), M - 1, z3.If(Z >= 0, Z, Z + M)), 64)
+    def sgn(it, a):
+        if is_c(Z): return max(-(M >> 1), min((M >> 1) - 1, Z)) % M
+        return bv2int.BVOfInt(z3.If(Z >= (M >> 1), (M >> 1) - 1, z3.If(Z < -(M >> 1), M >> 1, z3.If(Z >= 0, Z, Z + M))), 64)
+    for nm in ('@strtoull', '@strtoul', '@__isoc23_strtoull', '@__isoc23_strtoul'): w.hooks[nm] = u
+    for nm in ('@strtoll', '@strtol', '@atol', '@atoll', '@__isoc23_strtoll', '@__isoc23_strtol'): w.hooks[nm] = sgn
+
 def seq_fork(w):
     """sequential semantics of '#pragma omp parallel for': run the outlined function once over the whole iteration space"""
     H = w.hooks
